@@ -16,7 +16,7 @@ PID = "C05"
 RULE = (
     "complete product (grid x mask x radius x width x position class per axis x sub-cell offset per axis) x threshold rule x intensity "
     "option; two-droplet configurations with surface gap >= 10 widths; droplets are kept inside non-periodic boxes with a margin of "
-    "R + 3w; non-trivial = every case (each involves at least one least-squares fit)"
+    "R + 3w; strongly non-square boxes (18x40, 40x18; thorough 12x12x30) with every straddling class; big + small pairs (R 14 / 3.2, gap 10 w); non-trivial = every case (each involves at least one least-squares fit)"
 )
 ASSUMPTIONS = [
     "radius >= 3.2 cells, width 1-2 cells, mild anisotropy (1 : 1.25) as stated; recovery demanded to 1e-4 relative (position: 1e-4 dx)",
@@ -44,6 +44,14 @@ def blocks(tier, seed):
     for dx in ([1.0, 1.0], [1.0, 1.25]):
         for mask in itertools.product((False, True), repeat=2):
             out.append({"kind": "cart2", "dx": dx, "mask": list(mask), "phase": ph})
+    for shape in ([18, 40], [40, 18]):
+        for mask in ([True, True], [False, True], [True, False]):
+            out.append({"kind": "rect", "shape": shape, "mask": mask, "phase": ph})
+    if tier == "thorough":
+        for shape in ([12, 12, 30], [30, 12, 12]):
+            out.append({"kind": "rect", "shape": shape, "mask": [True, True, True], "phase": ph})
+    for mask in ([False, False], [True, True]):
+        out.append({"kind": "bigsmall", "mask": mask, "phase": ph})
     for k in ("polar", "sph"):
         out.append({"kind": k, "phase": ph})
     for pz in (False, True):
@@ -95,6 +103,33 @@ def cases(block):
                         for rule in RULES[:2]:
                             for it in INTENS[:1] + INTENS[5:6] + INTENS[9:]:
                                 yield {"grid": g, "drops": [[c1, R1, w1], [c2, R2, w2]], "rule": rule, "intensity": it, "classes": [cls0]}
+    elif k == "rect":
+        # strongly non-square / non-cubic boxes: the period differs from axis to axis
+        shape, mask = block["shape"], block["mask"]
+        dim = len(shape)
+        R, w = (4.5, 1.0) if dim == 2 else (3.2, 1.0)
+        g = {"kind": "cart", "shape": shape, "dx": [1.0] * dim, "origin": [0.0] * dim, "periodic": mask}
+        classes = [(["interior", "low", "outside"] if p else ["interior"]) for p in mask]
+        for cls in itertools.product(*classes):
+            for off in itertools.product(OFFS[:2], repeat=dim):
+                if dim == 3 and off[1] != off[2]:
+                    continue
+                c = [({"interior": shape[a] // 2, "low": 0, "outside": shape[a] + shape[a] // 2}[cls[a]] + off[a] + ph) * 1.0 for a in range(dim)]
+                for rule in RULES[:2]:
+                    yield {"grid": g, "drops": [[c, R, w]], "rule": rule, "intensity": "standard", "classes": list(cls)}
+    elif k == "bigsmall":
+        # a small droplet close to (but 10 widths away from) a much larger one: centre distance between R1+R2 and 2*R1
+        mask = block["mask"]
+        g = {"kind": "cart", "shape": [52, 36], "dx": [1.0, 1.0], "origin": [0.0, 0.0], "periodic": mask}
+        Rb, Rs, w = 14.0, 3.2, 1.0
+        for off in itertools.product(OFFS[:2], repeat=2):
+            cb = [17.0 + off[0] + ph, 18.0 + off[1]]
+            for v in ([1.0, 0.0], [0.96, 0.28], [0.96, -0.28]):
+                dist = Rb + Rs + 10 * w
+                cs = [cb[0] + v[0] * dist, cb[1] + v[1] * dist]
+                for drops in ([[cb, Rb, w], [cs, Rs, w]], [[cs, Rs, w], [cb, Rb, w]]):
+                    for rule in RULES[:2]:
+                        yield {"grid": g, "drops": drops, "rule": rule, "intensity": "standard", "classes": ["interior"], "bigsmall": True}
     elif k in ("polar", "sph"):
         dim = 2 if k == "polar" else 3
         for n, Ro in ((24, 24.0), (32, 16.0)):
@@ -173,6 +208,10 @@ def run_case(case, ctx):
         ctx.count("fitted-levels")
     if len(drops) == 2:
         ctx.count("two-droplets")
+    if case.get("bigsmall"):
+        ctx.count("small-droplet-within-one-big-radius-of-big-surface")
+    if kind == "cart" and len(set(g["shape"])) > 1 and any(cl in ("low", "outside") for cl in case["classes"]):
+        ctx.count("straddling-on-non-square-box")
 
     def pd(p, q):
         return geom.point_dist(g, p, q) if kind == "cart" else float(np.linalg.norm(np.asarray(p) - np.asarray(q)))
@@ -194,4 +233,5 @@ def run_case(case, ctx):
 
 
 def expected_positive(tier):
-    return ["C05.count", "C05.position", "C05.radius", "C05.width", "C05.inbox", "across-or-outside-periodic-boundary", "fitted-levels", "two-droplets"]
+    return ["C05.count", "C05.position", "C05.radius", "C05.width", "C05.inbox", "across-or-outside-periodic-boundary", "fitted-levels", "two-droplets",
+            "small-droplet-within-one-big-radius-of-big-surface", "straddling-on-non-square-box"]
